@@ -127,11 +127,13 @@ def run(ctx):
                 [("set.len!=len", cmp_fact("eq", length(dedup_of(ctx.prog, gss, FnView.get(ctx.prog, gss), arg(5))),
                                            length(arg(5)), False))], ok_sinks(gss))
         reductions(ctx, gss.key, adaptors={}, min_loops=1)
-        pushes = [(bb, v.call_args(bb)) for (bb, t, ci) in gss.calls() if ci and ci.get("name") == "push"]
-        good = len(pushes) == 1
+        # the returned vector, in whatever form it is built (push loop, map/collect): one share per identifier of the list
+        oks_ = ok_values(gss, v)
+        comps = map_components(P, gss, v, oks_[0]) if len(oks_) == 1 else []
+        good = len(comps) == 1 and comps[0][0] == "each" and comps[0][2] is None and comps[0][1] == ("arg", 5)
         if good:
-            sh = pushes[0][1][1]
-            item = next_item(arg(5))
+            sh = comps[0][3]
+            item = lambda t: t == ITEM
             fields = dict(sh[4]) if sh[0] == "agg" else {}
             poly = lambda t: t[0] == "ok" and is_call(t[1], name="generate_secret_polynomial")
             ss = unwrap_newtypes(fields.get("signing_share", ("x",)))
